@@ -182,7 +182,13 @@ impl Prog {
 
     /// Builds the program through the public `Context` constructors
     pub fn build_with_vars(&self, vars: Vec<Var>) -> Built {
-        let mut ctx = Context::new();
+        self.build_in(Context::new(), vars)
+    }
+
+    /// Builds the program in an existing context (e.g. one that held other
+    /// expressions and was cleared)
+    pub fn build_in(&self, ctx: Context, vars: Vec<Var>) -> Built {
+        let mut ctx = ctx;
         let mut nodes: Vec<Node> = Vec::with_capacity(self.nodes.len());
         for n in &self.nodes {
             let node = match *n {
